@@ -16,7 +16,14 @@ C36  CSRLIN/POS inside the screen; CSRLIN/POS equal to the reference model's lan
      the next character; explicit LOCATE r,c -> cursor (r,c) or error 5, outside the screen always
      error 5; landing probe (PRINT "x"; puts x at the reported cell); SCREEN(r,c) == get_chars cell
      == model cell; deferred-wrap placement model for plain text; rows outside an active VIEW PRINT
-     window unchanged by PRINT/CLS.
+     window unchanged by PRINT/CLS.  Per page: writes go to the active page only; PCOPY s,d makes
+     page d hold what page s held at that instant; nothing else changes a page that is not the
+     active one.  Each page has a reference content (the active page: the placement model; other
+     pages: the content last observed or copied); it is compared with get_chars() whenever the
+     page is the visible one (after every statement while the visible page is not the active
+     one, on every page switch, and in 'pages' sweeps that visit every page with SCREEN ,,p,p)
+     and with SCREEN(r,c) on the active page, also while that page is hidden.  A page never seen
+     since the last mode change has no reference yet: its first reading is taken on trust.
 C30  for every graphics statement: before/after snapshot of all pages; graphics mode: changes only
      on the active page and only inside the viewport that was current when the statement started
      (VIEW itself draws its fill and border with the viewport unset, so only the page is judged
@@ -416,6 +423,138 @@ def _color_op(rng, hint):
     return {'op': 'color', 'args': ','.join(args)}
 
 
+def _npages_hint(hint):
+    """Plausible number of pages in the current mode (a generator hint; invalid numbers are wanted too)."""
+    if hint.adapter in ('mda',):
+        return 1
+    if hint.gm is None:
+        return 2 if hint.adapter == 'hercules' else (8 if hint.width == 40 else 4)
+    if hint.adapter == 'hercules':
+        return 2
+    if hint.adapter == 'olivetti' and hint.mode >= 3:
+        return 1
+    return max(1, min(8, NPAGES.get(hint.mode, 4) * hint.vmem // 262144))
+
+
+def _pageno(rng, np_):
+    q = rng.random()
+    if q < 0.72:
+        # few pages, so that copies, writes and visits meet on the same ones
+        return rng.choice([0, 1, 0, 1, min(2, np_ - 1)])
+    if q < 0.92:
+        return rng.randint(0, np_ - 1)
+    return rng.choice([np_, np_ + 1, 8, 9, 255, 256, -1])
+
+
+def _pageswitch_op(rng, np_, hidden=0.45):
+    ap = _pageno(rng, np_)
+    vp = ap
+    if rng.random() < hidden:
+        vp = _pageno(rng, np_)
+    q = rng.random()
+    if q < 0.08:
+        return {'op': 'screen', 'm': None, 'cs': None, 'ap': None, 'vp': vp}
+    if q < 0.16 and vp == ap:
+        return {'op': 'screen', 'm': None, 'cs': None, 'ap': ap, 'vp': None}
+    return {'op': 'screen', 'm': None, 'cs': None, 'ap': ap, 'vp': vp}
+
+
+def _sweep_op(rng, hint, np_, full=True):
+    w = hint.width
+    n = np_ if full or rng.random() < 0.5 else rng.randint(1, np_)
+    if rng.random() < 0.1:
+        n += 1
+    op = {'op': 'pages', 'n': n,
+          'cells': [[rng.randint(1, 24), rng.randint(1, w)] for _ in range(rng.choice([0, 1, 2, 3]))],
+          'ap': None, 'vp': None}
+    if rng.random() < 0.8:
+        op['ap'] = _pageno(rng, np_)
+        op['vp'] = op['ap'] if rng.random() < 0.55 else _pageno(rng, np_)
+    return op
+
+
+def _gen_pages(rng, hint, prop, long_, dbcs, faulty):
+    """
+    Histories about several pages: text (mostly) modes with more than one page, output on the active
+    page - shown or hidden -, PCOPY between pages with valid and invalid numbers, page switches and
+    sweeps that visit every page.
+    """
+    ops = []
+    if rng.random() < 0.4:
+        ops.append({'op': 'width', 'n': rng.choice([40, 80])})
+        hint.width = ops[-1]['n']
+    # an explicit mode and colour switch first: SCREEN ,,a,v with the switch left out would otherwise
+    # change it, which rebuilds (clears) all pages
+    if rng.random() < 0.12 and GMODES[hint.adapter]:
+        first = _screen_op(rng, hint, want_gfx=True, pages='none')
+    else:
+        first = {'op': 'screen', 'm': 0, 'cs': None, 'ap': None, 'vp': None}
+        hint.screen(0)
+    first['cs'] = None
+    first['ap'] = first['vp'] = 0
+    ops.append(first)
+    np_ = _npages_hint(hint)
+    if rng.random() < 0.7:
+        ops.append({'op': 'key', 'v': 'OFF'})
+    if prop == 'C35' and rng.random() < 0.4:
+        ops.append(_color_op(rng, hint))
+    if prop == 'C36':
+        ops.append({'op': 'cls', 'arg': ''})
+        if rng.random() < 0.6:
+            ops.append(_sweep_op(rng, hint, np_))
+    n = rng.randint(8, 26) if not long_ else rng.randint(25, 100)
+    for _ in range(n):
+        r = rng.random()
+        if r < 0.27:
+            if rng.random() < 0.4:
+                ops.append({'op': 'locate', 'r': rng.randint(1, 24), 'c': rng.randint(1, hint.width), 'cur': None})
+            if prop == 'C36' or rng.random() < 0.6:
+                ops.append(_print_op(rng, hint, plain_only=True))
+            else:
+                ops.append(_print_op(rng, hint, dbcs=dbcs))
+        elif r < 0.33:
+            ops.append(_locate_op(rng, hint))
+        elif r < 0.48:
+            ops.append(_pageswitch_op(rng, np_, hidden=0.45 if prop == 'C36' else 0.65))
+        elif r < 0.61:
+            ops.append({'op': 'pcopy', 's': _pageno(rng, np_), 'd': _pageno(rng, np_)})
+        elif r < 0.66:
+            ops.append({'op': 'cls', 'arg': rng.choice(['', '', '', '2', '0'])})
+        elif r < 0.70:
+            ops.append({'op': 'scrollburst', 'n': rng.randint(2, 30), 's': _plain(rng, rng.randint(0, 12))})
+        elif r < 0.74:
+            ops.append({'op': 'land', 'ch': rng.choice(PLAIN)})
+        elif r < 0.80:
+            if prop == 'C36':
+                ops.append({'op': 'scrfn', 'cells': [[rng.randint(1, 25), rng.randint(1, hint.width)]
+                                                     for _ in range(rng.randint(1, 6))]})
+            else:
+                ops.append({'op': 'drain'})
+        elif r < 0.83:
+            ops.append({'op': 'printrep', 'ch': rng.choice(PLAIN), 'n': rng.choice([hint.width, 2 * hint.width + 3, rng.randint(1, 255)]),
+                        'end': rng.choice(['', ';', ';'])})
+        elif r < 0.86:
+            ops.append(_viewprint_op(rng))
+        elif r < 0.93:
+            if prop == 'C36':
+                ops.append(_sweep_op(rng, hint, np_, full=False))
+            else:
+                ops.append(_pageswitch_op(rng, np_, hidden=0.3))
+        elif r < 0.95:
+            ops.append({'op': 'key', 'v': rng.choice(['ON', 'OFF'])})
+        elif r < 0.97:
+            ops.append(_color_op(rng, hint))
+        elif r < 0.985:
+            ops.append(_typed_op(rng, hint))
+        elif prop == 'C35' and faulty:
+            ops.append({'op': 'restart'})
+        else:
+            ops.append({'op': 'lineinput', 'prompt': _plain(rng, rng.randint(0, 6)), 'keys': _typed_op(rng, hint)['keys'][:40]})
+    if prop == 'C36':
+        ops.append(_sweep_op(rng, hint, np_))
+    return ops
+
+
 def gen(rng, tier, prop):
     sess = _gen_session(rng, prop)
     hint = _Hint(sess)
@@ -428,7 +567,10 @@ def gen(rng, tier, prop):
         cfg['lag'] = 0 if q < 0.45 else (1 if q < 0.6 else (rng.randint(2, 6) if q < 0.8 else 1000))
         faulty = cfg['lag'] != 0 or rng.random() < 0.3
         n = rng.randint(5, 28) if not long_ else rng.randint(20, 120)
-        if rng.random() < 0.5:
+        if rng.random() < 0.2:
+            ops = _gen_pages(rng, hint, prop, long_, dbcs, faulty)
+            n = 0
+        elif rng.random() < 0.5:
             ops.append(_color_op(rng, hint))
         for _ in range(n):
             r = rng.random()
@@ -486,6 +628,8 @@ def gen(rng, tier, prop):
         cfg['lag'] = 0 if q < 0.6 else rng.choice([1, 3, 1000])
         n = rng.randint(6, 26) if not long_ else rng.randint(20, 100)
         z = rng.random()
+        if rng.random() < 0.3:
+            return {'machine': NAME, 'prop': prop, 'cfg': cfg, 'ops': _gen_pages(rng, hint, prop, long_, dbcs, False)}
         if z < 0.25:
             ops.append(_screen_op(rng, hint, pages='same'))
         elif z < 0.35:
@@ -640,6 +784,13 @@ def simplify(cfg, ops):
                 yield cfg, ops[:i] + [dict(op, cs=None)] + ops[i + 1:]
         if k == 'locate' and op.get('cur') is not None:
             yield cfg, ops[:i] + [dict(op, cur=None)] + ops[i + 1:]
+        if k == 'pages':
+            if op.get('n', 0) > 0:
+                yield cfg, ops[:i] + [dict(op, n=op['n'] - 1)] + ops[i + 1:]
+            if op.get('cells'):
+                yield cfg, ops[:i] + [dict(op, cells=[])] + ops[i + 1:]
+            if op.get('ap') is not None:
+                yield cfg, ops[:i] + [dict(op, ap=None, vp=None)] + ops[i + 1:]
         if k == 'scrfn' and len(op['cells']) > 1:
             for j in range(len(op['cells'])):
                 yield cfg, ops[:i] + [dict(op, cells=op['cells'][:j] + op['cells'][j + 1:])] + ops[i + 1:]
@@ -892,6 +1043,9 @@ def _body(run, case):
         # model state
         c.text_mode = True           # known from successful SCREEN ops / initial mode
         c.apage = c.vpage = 0        # None = not known
+        c.av_same = False            # True: active == visible although the numbers are not known
+        c.pg = {}                    # page number -> rows (bytes) last written on a page that is not the active one
+        c.hidden_written = set()     # pages whose reference includes placement predictions made while hidden
         c.viewport = None            # None = whole screen; else (x0, y0, x1, y1)
         c.tm = TextModel()
         c.since_drain = 0
@@ -915,6 +1069,9 @@ def _body(run, case):
             c.prev_kind = kind
             # cheap invariant for every run: cursor inside the screen
             _check_cursor_bounds(c)
+            if prop == 'C36' and c.apage is not None and c.vpage is not None and c.apage != c.vpage:
+                # the visible page is not the active one: nothing but PCOPY may have changed it
+                _verify_visible(c, kind)
             if prop == 'C35':
                 c.since_drain += 1
                 if lag == 0 or kind == 'drain' or (lag < 1000 and c.since_drain >= lag):
@@ -951,6 +1108,9 @@ def _scan_signals(c):
         c.viewport = None
         c.tm.set_size(c.mode_geom[2], c.mode_geom[3])
         c.tm.forget()
+        # a mode change rebuilds every page: no page has a reference content any more
+        c.pg.clear()
+        c.hidden_written.clear()
     return mode_set
 
 
@@ -960,12 +1120,90 @@ def _cursor(c):
     return r, col
 
 
+def _vis(c):
+    """True when the active page is known to be the visible one (so get_chars() shows it)."""
+    return (c.apage is not None and c.apage == c.vpage) or c.av_same is True
+
+
 def _resync_text(c):
-    chars = c.d.chars()
-    c.tm.resync_grid(chars)
+    """Take the active page's content and the cursor from the engine (returns get_chars() or None)."""
+    if _vis(c):
+        chars = c.d.chars()
+        c.tm.resync_grid(chars)
+    else:
+        # get_chars() shows another page; the content is learnt when the page is next visited
+        chars = None
+        c.tm.grid = None
+    if c.apage is not None:
+        c.hidden_written.discard(c.apage)
     r, col = _cursor(c)
     c.tm.resync_cursor(r, col)
     return chars
+
+
+def _snapshot(grid):
+    return None if grid is None else [bytes(r) for r in grid]
+
+
+def _verify_visible(c, why, active_sig=None):
+    """
+    get_chars() shows the visible page. If that page has a reference content (the characters last
+    written or copied there) it must show exactly that; otherwise the reading is taken on trust
+    and becomes the reference.
+    """
+    tm = c.tm
+    if _vis(c):
+        page = c.apage
+        want = _snapshot(tm.grid)
+        if active_sig is not None:
+            sig = active_sig
+        elif page in c.hidden_written:
+            sig = 'pages:hidden-active-page-differs-from-reference-model'
+        else:
+            sig = 'pages:page-changed-while-not-active'
+    elif c.apage is not None and c.vpage is not None:
+        page = c.vpage
+        want = c.pg.get(page)
+        sig = 'pages:visible-non-active-page-changed'
+    else:
+        return
+    chars = c.d.chars()
+    obs = [b''.join(r) for r in chars]
+    if want is not None and len(want) == len(obs) and len(want[0]) == len(obs[0]):
+        c.compares += 1
+        c.run.probe('page content compared with its reference')
+        if want != obs:
+            y = [i for i in range(len(obs)) if obs[i] != want[i]][0]
+            x = [i for i in range(len(obs[y])) if obs[y][i] != want[y][i]][0]
+            c.run.violate('C36', sig,
+                          'after %r: page %r (active %r, visible %r) row %d col %d holds %r, last written there: %r'
+                          '\n got  %r\n want %r' % (why, page, c.apage, c.vpage, y + 1, x + 1,
+                                                   obs[y][x:x + 1], want[y][x:x + 1], obs[y], want[y]))
+    if _vis(c):
+        tm.resync_grid(chars)
+        if page is not None:
+            c.hidden_written.discard(page)
+    else:
+        c.pg[page] = obs
+
+
+def _switch_page_model(c, old_ap, why):
+    """After a successful page switch without mode change: bring the reference contents along."""
+    tm = c.tm
+    new_ap = c.apage
+    if new_ap != old_ap or new_ap is None:
+        # another page becomes the active one: park the old reference, fetch the new page's
+        if old_ap is None:
+            c.pg.clear()
+        elif tm.grid is not None:
+            c.pg[old_ap] = _snapshot(tm.grid)
+        else:
+            c.pg.pop(old_ap, None)
+        known = c.pg.pop(new_ap, None) if new_ap is not None else None
+        tm.grid = None if known is None else [bytearray(r) for r in known]
+    _verify_visible(c, why)
+    # where the cursor is after a page switch is not stated: take it from CSRLIN/POS
+    tm.resync_cursor(*_cursor(c))
 
 
 def _check_cursor_bounds(c):
@@ -1103,8 +1341,9 @@ def _do_print(c, stmt, s, end, plain):
     judge = c.prop == 'C36'
     before = None
     watch_outside = False
+    vis = _vis(c)
     if judge:
-        watch_outside = tm.win_active and tm.row is not None and tm.top <= tm.row <= tm.bottom
+        watch_outside = vis and tm.win_active and tm.row is not None and tm.top <= tm.row <= tm.bottom
         if watch_outside:
             before = c.d.chars()
     r = _exec(c, stmt)
@@ -1117,6 +1356,24 @@ def _do_print(c, stmt, s, end, plain):
     predicted = plain and end in ('', ';') and tm.put(b(s), end == '')
     if tm.pending:
         c.run.probe('column-80 overflow state reached')
+    if not vis:
+        # the active page is hidden: get_chars() shows another page. The placement model carries the
+        # reference content on; it is compared when the page is next shown and by SCREEN(r,c).
+        if predicted:
+            c.run.probe('placement predicted on a hidden active page')
+            if c.apage is not None:
+                c.hidden_written.add(c.apage)
+            rep = _cursor(c)
+            land = tm.landing()
+            if land is not None and rep != land:
+                c.run.violate('C36', 'cursor:csrlin-pos-disagree-with-next-character-position',
+                              'after %r on hidden active page %r: CSRLIN,POS=%r, reference model says the next character '
+                              'lands at %r (pending wrap: %r)' % (stmt[:60], c.apage, rep, land, tm.pending))
+                tm.resync_cursor(*rep)
+        else:
+            tm.grid = None
+            tm.resync_cursor(*_cursor(c))
+        return
     after = c.d.chars()
     if watch_outside:
         for y in list(range(0, tm.top - 1)) + list(range(tm.bottom, tm.h)):
@@ -1171,6 +1428,20 @@ def _h_land(c, op):
     if c.tm.h is None or not isinstance(rep[0], int):
         return
     R, C = rep
+    if not _vis(c):
+        # hidden active page: only SCREEN(r,c) can see the cell
+        if 1 <= R <= c.tm.h and 1 <= C <= c.tm.w:
+            v = c.d.eval(b'SCREEN(%d,%d)' % (R, C))
+            if v is not None:
+                c.compares += 1
+                if v != ord(ch):
+                    sig = 'landing:character-not-at-csrlin-pos'
+                    if R == c.tm.h:
+                        sig += ':bottom-row'
+                    c.run.violate('C36', sig,
+                                  'hidden active page %r: CSRLIN,POS reported %r; PRINT "%s"; then SCREEN(%d,%d)=%r; window %d-%d' % (
+                                      c.apage, rep, ch, R, C, v, tm.top, tm.bottom))
+        return
     chars = c.d.chars()
     if 1 <= R <= len(chars) and 1 <= C <= len(chars[0]):
         c.compares += 1
@@ -1198,14 +1469,14 @@ def _h_cls(c, op):
     arg = op.get('arg', '')
     judge = c.prop == 'C36'
     before = None
-    if judge and tm.win_active and arg in ('', '2'):
+    if judge and tm.win_active and arg in ('', '2') and _vis(c):
         before = c.d.chars()
     r = _exec(c, 'CLS ' + arg if arg else 'CLS')
     mode_set = _scan_signals(c)
     if not judge:
         return
     after = _resync_text(c)
-    if before is not None and r.err is None and not mode_set:
+    if before is not None and after is not None and r.err is None and not mode_set:
         for y in list(range(0, tm.top - 1)) + list(range(tm.bottom, tm.h)):
             if before[y] != after[y]:
                 c.run.violate('C36', 'placement:row-outside-view-print-window-changed',
@@ -1295,6 +1566,7 @@ def _h_width(c, op):
     _exec(c, 'WIDTH %d' % op['n'])
     if _scan_signals(c):
         c.apage = c.vpage = 0
+        c.av_same = False
         # text/graphics kind is kept by WIDTH except where the adapter table maps to mode 0;
         # find out from the BIOS mode byte (BASIC-visible) rather than guess
         c.text_mode = _peek_text_mode(c)
@@ -1316,29 +1588,80 @@ def _h_screen(c, op):
         args.pop()
     if not args:
         args = ['0']
-    res = _exec(c, 'SCREEN ' + ','.join(args))
+    stmt = 'SCREEN ' + ','.join(args)
+    res = _exec(c, stmt)
     mode_set = _scan_signals(c)
+    old_ap = c.apage
     if res.err is None:
         if m is not None:
             c.text_mode = (m == 0)
         if ap is not None:
             c.apage = ap
             c.vpage = vp if vp is not None else ap
+            c.av_same = False
         elif vp is not None:
             c.vpage = vp
+            c.av_same = False
         elif mode_set and c.d.kwargs.get('video') == 'pcjr':
             # pages persist over a mode switch; PCjr may reset them: not known without being told
+            # (both go back to 0 or neither does, so pages that were the same stay the same)
+            c.av_same = _vis(c)
             c.apage = c.vpage = None
     elif mode_set:
         c.text_mode = _peek_text_mode(c)
         c.apage = c.vpage = None
+        c.av_same = False
     if c.prop == 'C36':
-        _resync_text(c)
+        if res.err is None and not mode_set:
+            # page switch (or nothing): every page keeps its content
+            if ap is not None or vp is not None:
+                c.run.probe('page switch without mode change')
+            _switch_page_model(c, old_ap, stmt)
+        else:
+            # mode change: all forgotten; error: its message was printed on the active page
+            _resync_text(c)
+    return res
 
 
 def _h_pcopy(c, op):
-    _exec(c, 'PCOPY %d,%d' % (op['s'], op['d']))
-    _after_text_op(c, None, False)
+    """PCOPY s,d: page d holds what page s holds at this instant; no other page changes."""
+    src, dst = op['s'], op['d']
+    stmt = 'PCOPY %d,%d' % (src, dst)
+    res = _exec(c, stmt)
+    mode_set = _scan_signals(c)
+    if c.prop != 'C36':
+        return
+    tm = c.tm
+    if mode_set or res.err is not None:
+        # (whether a page number is valid is the adapter's business: an error is accepted for any
+        # pair, and then no page changes except for the message printed on the active page)
+        _resync_text(c)
+        return
+    ap = c.apage
+    if ap is None:
+        # which page is the active one is not known: neither is what was copied where
+        c.pg.clear()
+        c.hidden_written.clear()
+        _resync_text(c)
+        return
+    c.run.probe('PCOPY succeeded')
+    if src != dst:
+        content = _snapshot(tm.grid) if src == ap else c.pg.get(src)
+        if src in c.hidden_written:
+            c.hidden_written.add(dst)
+        else:
+            c.hidden_written.discard(dst)
+        if dst == ap:
+            tm.grid = None if content is None else [bytearray(r) for r in content]
+        elif content is None:
+            c.pg.pop(dst, None)
+        else:
+            c.pg[dst] = content
+            c.run.probe('PCOPY with known source content')
+    # nothing was printed: the cursor model stays; the copy itself is looked at when visible
+    if _vis(c):
+        _verify_visible(c, stmt, active_sig='pages:pcopy-destination-differs-from-source' if dst == ap and src != dst
+                        else 'pages:pcopy-changed-a-page-other-than-destination')
 
 
 def _h_key(c, op):
@@ -1385,12 +1708,32 @@ def _h_scrfn(c, op):
                               'SCREEN(%d,%d)=%r on a %dx%d screen' % (r_, c_, v, h, wd))
             continue
         got = chars[r_ - 1][c_ - 1]
-        if c.apage == c.vpage and c.apage is not None and v != ord(got):
+        if _vis(c) and v != ord(got):
             c.run.violate('C36', 'screenfn:differs-from-get-chars',
                           'SCREEN(%d,%d)=%r, get_chars cell %r' % (r_, c_, v, got))
-        if c.prop == 'C36' and tm.grid is not None and tm.h == h and tm.w == wd and v != tm.grid[r_ - 1][c_ - 1]:
-            c.run.violate('C36', 'screenfn:not-the-character-last-written',
-                          'SCREEN(%d,%d)=%r, reference model cell %r' % (r_, c_, v, tm.grid[r_ - 1][c_ - 1]))
+        if c.prop == 'C36' and tm.grid is not None and tm.h == h and tm.w == wd:
+            if not _vis(c):
+                c.run.probe('SCREEN(r,c) on a hidden active page compared with its reference')
+            if v != tm.grid[r_ - 1][c_ - 1]:
+                c.run.violate('C36', 'screenfn:not-the-character-last-written',
+                              'SCREEN(%d,%d)=%r on active page %r (visible %r), reference model cell %r' % (
+                                  r_, c_, v, c.apage, c.vpage, tm.grid[r_ - 1][c_ - 1]))
+
+
+def _h_pages(c, op):
+    """
+    Sweep: show pages 0..n-1 one after the other (SCREEN ,,p,p) and read each through get_chars()
+    and SCREEN(r,c); then go to the (active, visible) pair the op names.  The comparison with each
+    page's reference content happens in the page switch itself (_switch_page_model).
+    """
+    for p in range(max(0, min(int(op.get('n', 0)), 16))):
+        res = _h_screen(c, {'m': None, 'cs': None, 'ap': p, 'vp': p})
+        if res.err is not None:
+            break
+        if op.get('cells'):
+            _h_scrfn(c, {'cells': op['cells']})
+    if op.get('ap') is not None:
+        _h_screen(c, {'m': None, 'cs': None, 'ap': op['ap'], 'vp': op.get('vp')})
 
 
 def _run_with_keys(c, keys, fn, quit_at_prompt, poll_cap=8000):
@@ -1428,6 +1771,7 @@ def _h_typed(c, op):
     if mode_set:
         c.text_mode = _peek_text_mode(c)
         c.apage = c.vpage = None
+        c.av_same = False
     # typed lines are remarks or random text (syntax errors); they cannot set VIEW PRINT/VIEW
     if c.prop == 'C36':
         _resync_text(c)
@@ -1654,6 +1998,6 @@ HANDLERS = {
     'print': _h_print, 'printrep': _h_printrep, 'scrollburst': _h_scrollburst, 'land': _h_land,
     'cls': _h_cls, 'color': _h_color, 'locate': _h_locate, 'viewprint': _h_viewprint, 'width': _h_width,
     'screen': _h_screen, 'pcopy': _h_pcopy, 'key': _h_key, 'keydef': _h_keydef, 'palette': _h_palette,
-    'drain': _h_drain, 'scrfn': _h_scrfn, 'typed': _h_typed, 'lineinput': _h_lineinput,
+    'drain': _h_drain, 'scrfn': _h_scrfn, 'pages': _h_pages, 'typed': _h_typed, 'lineinput': _h_lineinput,
     'view': _h_view, 'window': _h_window, 'get': _h_get, 'put': _h_put, 'gfx': _h_gfx,
 }
